@@ -19,10 +19,11 @@ TYPES = ["hex", "srec", "bin", "elf", "wdc", "uf2"]
 CARRIERS = [("msp430", 1), ("68000", 1), ("mips", 1), ("avr8", 2), ("arm", 1), ("", 1)]
 
 
-def render(layout, cpu, bpa, variant):
+def render(layout, cpu, bpa, variant, order=None):
     lines = [".%s" % cpu] if cpu else []
     names = []
-    for si, s in enumerate(layout):
+    for si in ([k - 1 for k in order] if order else range(len(layout))):
+        s = layout[si]
         start = (s["st"]["h"] << 16) | s["st"]["l"]
         ln = s["len"]
         if bpa > 1:
@@ -48,9 +49,15 @@ def run(tier, seed):
     rd = chk.rundir
     rnd = random.Random(seed)
 
-    g = C.tlc("GenLayout", "gen_Layout_%s.cfg" % tier, rd, workers=8, heap="6g")
+    g = C.tlc("GenLayout", "gen_Layout_%s.cfg" % tier, rd, workers=8, heap="6g", prefixes=("CASE ", "ORD "))
     chk.add_tlc(g)
     layouts = C.parse_payload(g.lines, "CASE ")
+    ordp = C.parse_payload(g.lines, "ORD ")
+    if not ordp or len(ordp[0]) < 500:
+        raise C.InfraError("no ordered layouts")
+    ordcases = sorted(ordp[0], key=lambda x: json.dumps(x, sort_keys=True))
+    if tier == "quick":
+        ordcases = rnd.sample(ordcases, 60)
     if len(layouts) < 1000:
         raise C.InfraError("only %d layouts" % len(layouts))
     def pagegap(l):
@@ -79,12 +86,18 @@ def run(tier, seed):
     tops = [l for l in layouts if top(l) and not wraps(l)]
     layouts = [l for l in layouts if not top(l)] + sorted(tops, key=lambda l: (len(l), l[-1]["len"]))[:4]
 
+    # segments assembled in another order than the address order
+    orders = {}
+    for oc in ordcases:
+        orders[len(layouts)] = oc["ord"]
+        layouts.append(oc["segs"])
+
     fdir = os.path.join(rd, "f")
     os.makedirs(fdir)
     cases, meta = [], {}
     for i, lay in enumerate(layouts):
         cpu, bpa = CARRIERS[i % len(CARRIERS)] if len(lay) > 1 else CARRIERS[(i // 3) % len(CARRIERS)]
-        src, names = render(lay, cpu, bpa, i)
+        src, names = render(lay, cpu, bpa, i, orders.get(i))
         cid = "L%d" % i
         meta[cid] = (i, cpu, bpa, src, names, i % 2 == 0, i % 3 == 0)
         cases.append((cid, "types=%s prefix=%s/ syms=%s" % (",".join(TYPES), fdir, ";".join(names)), src))
@@ -167,9 +180,10 @@ def run(tier, seed):
         evaluations=len(events) - len(canaries),
         distinct_nontrivial=len([l for l in layouts if len(l) >= 2 or l[0]["len"] > 16]),
         rule="TLC enumerates layouts of 1-3 disjoint segments (12 boundary start addresses x 9 lengths); each layout "
-             "is assembled once and written in 6 formats; non-trivial = more than one segment or longer than a record",
+             "is assembled once and written in 6 formats; three-segment layouts over three 64 KiB pages are also assembled in every "
+             "order of their segments; non-trivial = more than one segment or longer than a record",
         traces_validated_against_impl=len(events) - len(canaries),
-        layouts=len(layouts), types=TYPES, carriers=[c[0] for c in CARRIERS],
+        layouts=len(layouts), ordered_layouts=len(orders), types=TYPES, carriers=[c[0] for c in CARRIERS],
         canaries=dict(injected=len(canaries), rejected=len(canaries)), exhaustive=False))
     chk.samples = [meta[c][3][:400] for c in rnd.sample(sorted(meta), 2)]
     chk.assumptions = ["lexers in nv/tokenize.py split fields only", "bin/elf/uf2 may contain zero fill inside [low, high] rounded to the granule",
